@@ -1,0 +1,66 @@
+// SPDX-FileCopyrightText: 2026 The Pion community <https://pion.ly>
+// SPDX-License-Identifier: MIT
+
+//go:build verif
+
+// Package verifhook provides instrumentation points for runtime verification.
+// With the verif build tag the functions dispatch to handlers installed by a
+// test harness; key identifies the connection (its handshake configuration).
+package verifhook
+
+import (
+	"sync/atomic"
+
+	dtlsflight "github.com/pion/dtls/v3/internal/flight"
+)
+
+type (
+	// AtFunc is called at every instrumentation point.
+	AtFunc func(key any, point string)
+	// FilterFunc may return a modified copy of a generated flight.
+	FilterFunc func(key any, isClient bool, flight string, state, cache any,
+		pkts []*dtlsflight.Packet) []*dtlsflight.Packet
+)
+
+var (
+	atHandler     atomic.Pointer[AtFunc]     //nolint:gochecknoglobals
+	filterHandler atomic.Pointer[FilterFunc] //nolint:gochecknoglobals
+)
+
+// SetAt installs (or with nil removes) the handler behind At.
+func SetAt(f AtFunc) {
+	if f == nil {
+		atHandler.Store(nil)
+
+		return
+	}
+	atHandler.Store(&f)
+}
+
+// SetFilter installs (or with nil removes) the handler behind FilterFlight.
+func SetFilter(f FilterFunc) {
+	if f == nil {
+		filterHandler.Store(nil)
+
+		return
+	}
+	filterHandler.Store(&f)
+}
+
+// At marks a point at which a monitor may inject a delay or yield.
+func At(key any, point string) {
+	if f := atHandler.Load(); f != nil {
+		(*f)(key, point)
+	}
+}
+
+// FilterFlight lets a monitor replace the packets of a freshly generated flight.
+func FilterFlight(key any, isClient bool, flight string, state, cache any,
+	pkts []*dtlsflight.Packet,
+) []*dtlsflight.Packet {
+	if f := filterHandler.Load(); f != nil {
+		return (*f)(key, isClient, flight, state, cache, pkts)
+	}
+
+	return pkts
+}
